@@ -463,6 +463,11 @@ pub fn op_from_json(j: &Json) -> Result<Operation> {
                 "Min" => CustomOperation::new(Min { signed_comparison: sg }),
                 "Max" => CustomOperation::new(Max { signed_comparison: sg }),
                 "Mux" => CustomOperation::new(Mux {}),
+                "Not" => CustomOperation::new(ciphercore_base::custom_ops::Not {}),
+                "Or" => CustomOperation::new(ciphercore_base::custom_ops::Or {}),
+                "Clip2K" => CustomOperation::new(ciphercore_base::ops::clip::Clip2K { k: j["k"].as_u64().unwrap_or(1) }),
+                "LongDivision" => CustomOperation::new(ciphercore_base::ops::long_division::LongDivision { signed: sg }),
+                "BinaryAdd" => CustomOperation::new(ciphercore_base::ops::adder::BinaryAdd { overflow_bit: j["overflow"].as_bool().unwrap_or(false) }),
                 "SortByIntegerKey" => CustomOperation::new(SortByIntegerKey { key: j["key"].as_str().unwrap_or("k").to_owned() }),
                 other => return Err(runtime_error!("unknown custom operation {}", other)),
             };
